@@ -180,10 +180,15 @@ pub fn explore_cfg(cfg: &Cfg, s: &Syms) -> (Vec<Path<Result<Vec<Sym>, String>>>,
 }
 
 pub fn check_config(cfg: &Cfg) -> Report {
+    check_config_sort(cfg, false)
+}
+/// `f32_sort`: ask the obligations over the SMT Float32 sort (every f32 value; the recorded comparisons are the same,
+/// models are replayed natively at f64, of which f32 is a subset with identical comparison results)
+pub fn check_config_sort(cfg: &Cfg, f32_sort: bool) -> Report {
     with_ctx(|c| c.reset_all());
     with_ctx(|c| c.mode = Mode::O);
-    let mut chk = Chk::new(Mode::O, cfg.timeout_ms);
-    chk.begin_config(&cfg.name());
+    let mut chk = if f32_sort { Chk::with_session(crate::engine::smt::Session::with_solver(Mode::O, cfg.timeout_ms, "z3", (8, 24))) } else { Chk::new(Mode::O, cfg.timeout_ms) };
+    chk.begin_config(&format!("{}{}", cfg.name(), if f32_sort { " [Float32 sort]" } else { "" }));
     let s = symbols(cfg, "");
     let t_ex = std::time::Instant::now();
     let (paths, st) = explore_cfg(cfg, &s);
@@ -374,7 +379,15 @@ pub const FUNCTIONS: &[&str] = &[
 ];
 
 pub fn run(args: &Args) -> Report {
-    let mut rep = par_run(configs(args), args.threads, check_config);
+    let mut items: Vec<(Cfg, bool)> = configs(args).into_iter().map(|c| (c, false)).collect();
+    if args.thorough() {
+        // second float sort: the same configurations over all f32 values
+        items.extend(configs(args).into_iter().filter(|c| c.call.n_queries() <= 2).map(|c| (c, true)));
+    }
+    let mut rep = par_run(items, args.threads, |(c, f32s)| check_config_sort(c, *f32s));
+    if args.thorough() {
+        rep.bounds.push("thorough: every configuration with batches <= 2 also over the Float32 sort (all f32 axis values, data and queries)".into());
+    }
     crate::validate::validate_linear(args.seed, &mut rep);
     for f in FUNCTIONS {
         rep.functions.insert(f.to_string());
